@@ -954,7 +954,12 @@ impl<'b> InnerBucket<'b> {
             self.put_leaf(Leaf::Bucket(name, meta))?;
         }
 
-        let root = self.nodes[self.page_node_ids[&self.meta.root_page] as usize].clone();
+        // If rebalancing promoted a page that was never loaded into a node to be the new root,
+        // nothing at or below it was modified, so there is nothing to write.
+        let root = match self.page_node_ids.get(&self.meta.root_page) {
+            Some(node_id) => self.nodes[*node_id as usize].clone(),
+            None => return Ok(self.meta),
+        };
         let mut root = root.borrow_mut();
         let page_id = root
             .spill(self, tx_freelist, None)?
